@@ -2,29 +2,39 @@ from .common import *
 
 def run(tier):
     r = Run('C09', tier)
+    block_obligations(r, tier)
+    finish_(r)
+    r.run_all()
+    return r.finish()
+
+def block_obligations(r, tier, prefix=''):
+    """AES block function == FIPS-197, by composition T1..T4 (C09; also behind C01's "decrypt restores" claim)"""
     u, uuf, ukuf = U_aes(), U_aes_uf(), U_aes_kuf()
     T = 300 if tier == 'quick' else 1800
-    r.tv(u, 'tv_aes.c')
-    r.add(Ob('T1-tables', 'h_c09.c', [u], defines=['H_TABLES'], unwind=10, timeout=T, note='all 256 inputs symbolic'))
-    r.add(Ob('T1-gmul', 'h_c09.c', [u], defines=['H_GMUL'], unwind=10, timeout=T))
-    r.add(Ob('T2-enc-round-special', 'h_c09.c', [u], defines=['H_ENC_ROUND', 'SPEC'], unwind=18, timeout=T))
-    r.add(Ob('T2-dec-round-special', 'h_c09.c', [u], defines=['H_DEC_ROUND', 'SPEC'], unwind=18, timeout=T))
-    r.add(Ob('T2-round-inverse-special', 'h_c09.c', [u], defines=['H_ROUND_INVERSE', 'SPEC'], unwind=18, timeout=T))
+    if not any(t.get('unit') == 'aes' for t in r.tv_results):
+        r.tv(u, 'tv_aes.c')
+    add = r.add
+    r_add = lambda ob: (setattr(ob, 'name', prefix + ob.name), add(ob))
+    r_add(Ob('T1-tables', 'h_c09.c', [u], defines=['H_TABLES'], unwind=10, timeout=T, note='all 256 inputs symbolic'))
+    r_add(Ob('T1-gmul', 'h_c09.c', [u], defines=['H_GMUL'], unwind=10, timeout=T))
+    r_add(Ob('T2-enc-round-special', 'h_c09.c', [u], defines=['H_ENC_ROUND', 'SPEC'], unwind=18, timeout=T))
+    r_add(Ob('T2-dec-round-special', 'h_c09.c', [u], defines=['H_DEC_ROUND', 'SPEC'], unwind=18, timeout=T))
+    r_add(Ob('T2-round-inverse-special', 'h_c09.c', [u], defines=['H_ROUND_INVERSE', 'SPEC'], unwind=18, timeout=T))
     for lane in range(16):   # one output byte per query: 64 symbolic input bits in the cone instead of 256
-        r.add(Ob('T2-enc-round-common-byte%d' % lane, 'h_c09.c', [u], defines=['H_ENC_ROUND', 'LANE=%d' % lane], unwind=18, timeout=T, cbmc_extra=['--slice-formula'], solver='cadical'))
-        r.add(Ob('T2-dec-round-common-byte%d' % lane, 'h_c09.c', [u], defines=['H_DEC_ROUND', 'LANE=%d' % lane], unwind=18, timeout=T, cbmc_extra=['--slice-formula'], solver='cadical'))
-    r.add(Ob('T2-ref-lemma-invmix', 'h_c09.c', [u], defines=['H_REF_INVMIX'], unwind=18, timeout=T, solver='z3', note='property of the FIPS reference only'))
+        r_add(Ob('T2-enc-round-common-byte%d' % lane, 'h_c09.c', [u], defines=['H_ENC_ROUND', 'LANE=%d' % lane], unwind=18, timeout=T, cbmc_extra=['--slice-formula'], solver='cadical'))
+        r_add(Ob('T2-dec-round-common-byte%d' % lane, 'h_c09.c', [u], defines=['H_DEC_ROUND', 'LANE=%d' % lane], unwind=18, timeout=T, cbmc_extra=['--slice-formula'], solver='cadical'))
+    r_add(Ob('T2-ref-lemma-invmix', 'h_c09.c', [u], defines=['H_REF_INVMIX'], unwind=18, timeout=T, solver='z3', note='property of the FIPS reference only'))
     for rd in range(1, 11):
-        r.add(Ob('T3-keystep-round%d' % rd, 'h_c09.c', [u], defines=['H_KEYSTEP', 'ROUND=%d' % rd], unwind=180, timeout=T))
-    r.add(Ob('T3-key-skeleton', 'h_c09.c', [ukuf], defines=['H_KEYSKEL'], unwind=180, timeout=T, replay_units=[u]))
-    r.add(Ob('T4-compose-enc', 'h_c09.c', [uuf], defines=['H_COMPOSE'], unwind=180, timeout=T, replay_units=[u]))
-    r.add(Ob('T4-compose-dec', 'h_c09.c', [uuf], defines=['H_COMPOSE', 'DEC'], unwind=180, timeout=T, replay_units=[u]))
+        r_add(Ob('T3-keystep-round%d' % rd, 'h_c09.c', [u], defines=['H_KEYSTEP', 'ROUND=%d' % rd], unwind=180, timeout=T))
+    r_add(Ob('T3-key-skeleton', 'h_c09.c', [ukuf], defines=['H_KEYSKEL'], unwind=180, timeout=T, replay_units=[u]))
+    r_add(Ob('T4-compose-enc', 'h_c09.c', [uuf], defines=['H_COMPOSE'], unwind=180, timeout=T, replay_units=[u]))
+    r_add(Ob('T4-compose-dec', 'h_c09.c', [uuf], defines=['H_COMPOSE', 'DEC'], unwind=180, timeout=T, replay_units=[u]))
+
+def finish_(r):
     r.bounds = ['none besides the 128-bit block and 128-bit key: every obligation quantifies over all values of its symbolic inputs; AES(key,block) == FIPS-197 follows by composition T1..T4']
     r.outside = ['a monolithic 2^256 equivalence query is not attempted (DESIGN section 6 C09); the composition argument is: T3 (schedule) + T2 (each round function) + T4 (order of rounds and keys, load/store byte order)']
     r.assumptions = ['operator new does not fail', 'T4 abstracts the four round functions by uninterpreted functions of (state, round key[s]); justified by T2',
                      'T3-key-skeleton abstracts genkey(r) by an uninterpreted function of (round key r-1, r); justified by T3-keystep']
-    r.run_all()
-    return r.finish()
 
 def replay(rp):
     return generic_replay(rp, {'aes': U_aes, 'aes_uf': U_aes, 'aes_kuf': U_aes})
